@@ -114,31 +114,39 @@ def AtomRec.z (a : AtomRec) : Float := decToFloat (a.zm, a.zd)
 
 def padRight (s : Str) (n : Nat) : Str := s ++ List.replicate (n - s.length) ' '
 
-/-- `Atom.set_properties(line)` in evaluation order, so the first failing conversion decides the error -/
-def mkAtom (line : Str) (conf terminal : String) : Except PyErr AtomRec := do
-  let name := strip (slice line 12 16)
-  let serial ← match H36.decode (slice line 6 11) with
-    | .ok n => pure n
-    | .valueError => throw .valueError
-  let x ← match parseDecimal (slice line 30 38) with | some d => pure d | none => throw .valueError
-  let y ← match parseDecimal (slice line 38 46) with | some d => pure d | none => throw .valueError
-  let z ← match parseDecimal (slice line 46 54) with | some d => pure d | none => throw .valueError
-  let resNum ← match parseInt (slice line 22 26) with | some n => pure n | none => throw .valueError
-  let resName := padRight (strip (slice line 17 20)) 3
-  let ch := strip (slice line 21 22)
+/-- everything `Atom.set_properties` computes from the columns other than the serial number, the
+    occupancy and the B-factor, as a function of the column slices it reads, in evaluation order (so
+    the first failing conversion decides the error) -/
+def mkCoreS (s0 sname sel sres sch snum sic sx sy sz : Str) (conf terminal : String) (serial : Int) (occ beta : String) :
+    Except PyErr AtomRec := do
+  let name := strip sname
+  let x ← match parseDecimal sx with | some d => pure d | none => throw .valueError
+  let y ← match parseDecimal sy with | some d => pure d | none => throw .valueError
+  let z ← match parseDecimal sz with | some d => pure d | none => throw .valueError
+  let resNum ← match parseInt snum with | some n => pure n | none => throw .valueError
+  let resName := padRight (strip sres) 3
+  let ch := strip sch
   let chain := if ch.isEmpty then ['_'] else ch
-  let typ0 := (strip (slice line 0 6)).map lowerC
+  let typ0 := (strip s0).map lowerC
   let typ := if ["DA ", "DC ", "DG ", "DT "].contains (str resName) then "hetatm".toList else typ0
-  let e0 := stripDigits (strip (slice line 12 14))
+  let e0 := stripDigits (strip sel)
   let e1 ← if name.length == 4 then
       (match e0 with | c :: _ => pure [c] | [] => throw .indexError) else pure e0
   let e2 := match e1 with
     | [a, b] => [a, lowerC b]
     | e => e
   pure { conf, name := str name, resName := str resName, chain := str chain, resNum,
-         icode := str (slice line 26 27), typ := str typ, element := str e2, terminal,
-         serial, xm := x.1, ym := y.1, zm := z.1, xd := x.2, yd := y.2, zd := z.2,
-         occ := str (strip (slice line 55 60)), beta := str (strip (slice line 60 66)) }
+         icode := str sic, typ := str typ, element := str e2, terminal,
+         serial, xm := x.1, ym := y.1, zm := z.1, xd := x.2, yd := y.2, zd := z.2, occ, beta }
+
+/-- `Atom.set_properties(line)`: the serial number is decoded first (hybrid-36), then the rest -/
+def mkAtom (line : Str) (conf terminal : String) : Except PyErr AtomRec :=
+  match H36.decode (slice line 6 11) with
+  | .valueError => .error .valueError
+  | .ok serial =>
+    mkCoreS (slice line 0 6) (slice line 12 16) (slice line 12 14) (slice line 17 20) (slice line 21 22) (slice line 22 26)
+      (slice line 26 27) (slice line 30 38) (slice line 38 46) (slice line 46 54) conf terminal serial
+      (str (strip (slice line 55 60))) (str (strip (slice line 60 66)))
 
 /-- conformation name `"{model}{altloc}"` -/
 def confName (model : Int) (line : Str) : String :=
@@ -153,23 +161,36 @@ structure PState where
 
 def PState.init : PState := ⟨St.init, 1⟩
 
-/-- one line of `get_atom_lines_from_pdb` -/
-def stepLine (o : Opts) (s : PState) (line : Str) : Except PyErr (PState × Option AtomRec) := do
+def atomKind (r : Rec Str) : Bool := r.kind == .atom || r.kind == .hetatm
+
+/-- the conversions of a line that can fail before an atom is built, none of which looks at the parser
+    state: `int(line[6:])` of a MODEL record, `line[16]`, and `line[21]` (read only with a chain selection) -/
+def lineCheck (o : Opts) (line : Str) : Except PyErr Unit :=
   let r := classify o line
-  -- MODEL: `model = int(line[6:])` before anything else
-  let model ← if r.kind = .model then
-      (match parseInt (line.drop 6) with | some m => pure m | none => throw .valueError) else pure s.model
-  -- `alt_conf_tag = line[16]` precedes the ignore / chain tests; `line[21]` is read only with a selection
-  if (r.kind = .atom ∨ r.kind = .hetatm) ∧ line.length ≤ 16 then throw .indexError
-  if (r.kind = .atom ∨ r.kind = .hetatm) ∧ !o.ignore.contains (str (slice line 17 20)) ∧ !o.chains.isEmpty ∧ line.length ≤ 21 then
-    throw .indexError
-  let out := step s.st r
-  let s' : PState := ⟨out.1, model⟩
-  if (r.kind = .atom ∨ r.kind = .hetatm) ∧ r.skip = false then
-    let terminal := if r.kind = .atom then (if r.isOxt then "C-" else if out.2 then "N+" else "") else ""
-    let a ← mkAtom line (confName model line) terminal
-    if a.element == "H" && !o.keepProtons then pure (s', none) else pure (s', some a)
-  else pure (s', none)
+  if r.kind == .model && (parseInt (line.drop 6)).isNone then .error .valueError
+  else if atomKind r && decide (line.length ≤ 16) then .error .indexError
+  else if atomKind r && !o.ignore.contains (str (slice line 17 20)) && !o.chains.isEmpty && decide (line.length ≤ 21) then
+    .error .indexError
+  else .ok ()
+
+/-- the terminal tag given to the atom of a line -/
+def terminalOf (r : Rec Str) (nplus : Bool) : String :=
+  if r.kind == .atom then (if r.isOxt then "C-" else if nplus then "N+" else "") else ""
+
+/-- one line of `get_atom_lines_from_pdb` -/
+def stepLine (o : Opts) (s : PState) (line : Str) : Except PyErr (PState × Option AtomRec) :=
+  match lineCheck o line with
+  | .error e => .error e
+  | .ok () =>
+    let r := classify o line
+    let model := if r.kind == .model then (parseInt (line.drop 6)).getD s.model else s.model
+    let out := step s.st r
+    let s' : PState := ⟨out.1, model⟩
+    if atomKind r && !r.skip then
+      match mkAtom line (confName model line) (terminalOf r out.2) with
+      | .error e => .error e
+      | .ok a => .ok (s', if a.element == "H" && !o.keepProtons then none else some a)
+    else .ok (s', none)
 
 def parseFrom (o : Opts) : PState → List Str → Except PyErr (List AtomRec)
   | _, [] => pure []
